@@ -17,7 +17,7 @@ ID = "C08"
 LEVEL = "exploration"
 TIERS = {
   "quick": {"runs": 96, "chunk": 6, "budget_s": 420, "timeout_s": 300},
-  "thorough": {"runs": 1600, "chunk": 10, "budget_s": 3000, "timeout_s": 300},
+  "thorough": {"runs": 384, "chunk": 8, "budget_s": 1500, "timeout_s": 300},
 }
 RULE = ("one evaluation = one step compared between mujoco_warp and MuJoCo C from the same synchronised state; histories of 5-60 steps with "
         "seeded controls, applied forces, equality toggles and mocap moves on generated/curated models for each integrator (Euler with and "
